@@ -46,11 +46,17 @@ def _build(repo):
     return os.path.join(tdir, 'debug', 'vx_witness')
 
 
-def target_for(cfg, fn):
-    """the search target for a function label: its own entry, else the property's default target (if any)"""
+def target_for(cfg, fn, unit=None):
+    """the search target for a function label: its own entry, else the property's default target (if any; `default_units`
+    restricts the default to the units whose defects the default search can actually reach)"""
     if not cfg or not fn:
         return None
-    return cfg.get('targets', {}).get(fn) or cfg.get('default')
+    t = cfg.get('targets', {}).get(fn)
+    if t:
+        return t
+    if cfg.get('default_units') is not None and unit is not None and unit not in cfg['default_units']:
+        return None
+    return cfg.get('default')
 
 
 def _ignore_args(cfg, tgt):
@@ -64,7 +70,7 @@ def search(cfg, failure, repo='/repo'):
     """cfg: {"kind": "vx_witness", "targets": {<function label>: <search target>}, "universe": 6}"""
     if cfg.get('kind') != 'vx_witness':
         return None
-    tgt = target_for(cfg, failure.get('function'))
+    tgt = target_for(cfg, failure.get('function'), (failure.get('obligation') or '').split('::')[0] or None)
     if not tgt:
         return None
     exe = _build(repo)
